@@ -15,6 +15,112 @@ from typing import Iterable, Iterator, Optional
 PKG = "panoptica"
 
 
+def _self_attr_stores(trees) -> dict:
+    """class name -> {private attribute name: normalised text of its first assigned value}"""
+    out: dict[str, dict[str, str]] = {}
+    for tree in trees:
+        for c in ast.walk(tree):
+            if not isinstance(c, ast.ClassDef):
+                continue
+            d = out.setdefault(c.name, {})
+            for f in c.body:
+                if not isinstance(f, (ast.FunctionDef, ast.AsyncFunctionDef)) or not f.args.args:
+                    continue
+                me = f.args.args[0].arg
+                for st in ast.walk(f):
+                    tgs = st.targets if isinstance(st, ast.Assign) else [st.target] if isinstance(st, (ast.AnnAssign, ast.AugAssign)) else []
+                    for t in tgs:
+                        for x in ast.walk(t):
+                            if isinstance(x, ast.Attribute) and isinstance(x.value, ast.Name) and x.value.id == me and x.attr.startswith("_") and not x.attr.endswith("__"):
+                                val = getattr(st, "value", None)
+                                d.setdefault(x.attr, ast.dump(val) if val is not None else "")
+    return out
+
+
+def _identifiers(trees) -> set:
+    ids = set()
+    for tree in trees:
+        for n in ast.walk(tree):
+            if isinstance(n, ast.Attribute):
+                ids.add(n.attr)
+            elif isinstance(n, ast.Name):
+                ids.add(n.id)
+            elif isinstance(n, ast.arg):
+                ids.add(n.arg)
+            elif isinstance(n, ast.keyword) and n.arg:
+                ids.add(n.arg)
+            elif isinstance(n, (ast.FunctionDef, ast.ClassDef)):
+                ids.add(n.name)
+            elif isinstance(n, ast.Constant) and isinstance(n.value, str) and len(n.value) < 80:
+                ids.add(n.value)
+                for part in n.value.replace(".", " ").split():
+                    ids.add(part)
+    return ids
+
+
+_BASE_ATTRS: list = []
+
+
+def _normalise_private_attributes(prog, trees) -> dict:
+    """Consistent renaming of a private instance attribute does not change behaviour.  The rules
+    name a few private attributes of the pinned tree (`_prediction_arr`, `__output_file`, ...);
+    when such an attribute was renamed, the parsed trees are alpha-renamed back to the name of
+    the frozen base, so every rule sees the names it knows.  A renaming new -> old is applied
+    only if it is unambiguous: `old` is a private attribute the base class assigns on self and
+    the current class no longer does, `new` is assigned on self in the current class but not in
+    the base class, `new` occurs nowhere in the base and `old` nowhere in the current tree,
+    and either it is the only such pair of the class or the first assigned values agree."""
+    if prog.root == "<corpus:base>":
+        return {}
+    if not _BASE_ATTRS:
+        try:
+            from . import variants
+
+            btrees = [ast.parse(s) for p, s in sorted(variants.base_sources().items()) if p.endswith(".py")]
+            _BASE_ATTRS.append((_self_attr_stores(btrees), _identifiers(btrees)))
+        except Exception:
+            _BASE_ATTRS.append(None)
+    if _BASE_ATTRS[0] is None:
+        return {}
+    base_stores, base_ids = _BASE_ATTRS[0]
+    cur_stores = _self_attr_stores(trees)
+    cur_ids = None
+    mapping: dict[str, str] = {}
+    for cname, battrs in base_stores.items():
+        cattrs = cur_stores.get(cname)
+        if cattrs is None:
+            continue
+        missing = [a for a in battrs if a not in cattrs]
+        fresh = [a for a in cattrs if a not in battrs]
+        if not missing or not fresh:
+            continue
+        if cur_ids is None:
+            cur_ids = _identifiers(trees)
+        missing = [a for a in missing if a not in cur_ids]
+        fresh = [a for a in fresh if a not in base_ids]
+        pairs = []
+        if len(missing) == 1 and len(fresh) == 1:
+            pairs = [(fresh[0], missing[0])]
+        else:
+            for old in missing:
+                # same first value once the candidate's own name is put back
+                cands = [new for new in fresh if cattrs[new].replace(repr(new), repr(old)) == battrs[old]]
+                if len(cands) == 1:
+                    pairs.append((cands[0], old))
+        for new, old in pairs:
+            if new.startswith("__") != old.startswith("__"):
+                continue  # name mangling would change which class owns the attribute
+            if mapping.get(new, old) != old or old in mapping.values() and mapping.get(new) != old:
+                continue
+            mapping[new] = old
+    if mapping:
+        for tree in trees:
+            for n in ast.walk(tree):
+                if isinstance(n, ast.Attribute) and n.attr in mapping:
+                    n.attr = mapping[n.attr]
+    return mapping
+
+
 _BASE_PROG = []
 
 
@@ -272,6 +378,7 @@ class Program:
         return cls(read_sources(root, extra_dirs), root=root)
 
     def _build(self):
+        parsed = []
         for path, src in sorted(self.sources.items()):
             if not path.endswith(".py"):
                 continue
@@ -283,6 +390,9 @@ class Program:
             except SyntaxError as e:
                 self.parse_errors.append(f"{path}: {e}")
                 continue
+            parsed.append((modname, path, tree, src))
+        self.attr_renames = _normalise_private_attributes(self, [t for _, _, t, _ in parsed])
+        for modname, path, tree, src in parsed:
             m = Module(modname, path, tree, src)
             self.modules[modname] = m
             self._scan_module(m)
